@@ -84,8 +84,15 @@ fn ctx<'a>(lay: &'a Layouts, id: &'a str, seed: u64) -> Result<Ctx<'a>, String> 
 	}
 	// all four ports occupied; which kinds they are rotates with the seed
 	let types: String = (0..4).map(|p| ['H', 'C', 'D', 'H'][(p + seed as usize) % 4]).collect();
-	let start = start_block(lay, len, &types, seed % 2 == 1, seed)?;
-	let end = end_block(lay, &mut Rng::new(seed), lay.end.classes[seed as usize % lay.end.classes.len()].1);
+	let mut start = start_block(lay, len, &types, seed % 2 == 1, seed)?;
+	// every other name field is empty, so that the field under test is the only Shift-JIS text in the file
+	for other in lay.start.tails.iter().filter(|o| matches!(o.ty, Ty::SjisCstr(_)) && len >= o.min_len) {
+		for p in 0..lay.start.ports {
+			start[other.offset(p)..other.offset(p) + other.ty.width()].fill(0);
+		}
+	}
+	// the shortest Game End block: nothing but the method, so that no other part of the reader is involved
+	let end = end_block(lay, &mut Rng::new(seed), lay.end.classes[0].1);
 	Ok(Ctx { field, port, off: t.offset(port), n, start, end })
 }
 
